@@ -1077,3 +1077,83 @@ def c20_tinterpolate(name, x, template, labels, mode):
         if bad:
             return {"violates": True, "why": "period value is not the rounded mean of the daily curve", "x": xv, "bad": bad[:4]}
     return {"violates": False}
+
+
+# ------------------------------------------------------------------ C14
+def c14_boundscheck(kernel, data=None, nodata=-3000, lam=10.0, p=0.9, robust=False, n=None, x=None, window=None, groups=None,
+                    template=None, labels=None, pix=None, zone=None, znd=None):
+    """Run the real kernel under NUMBA_BOUNDSCHECK=1 (server started with it): IndexError, or outputs that depend on what the
+    output buffer held before the call, are violations."""
+    import os
+    from hdc.algo import ops
+    from hdc.algo.ops import stats
+    assert os.environ.get("NUMBA_BOUNDSCHECK") == "1"
+    lam = float(lam) if lam is not None and 0 < float(lam) < 1e8 else 10.0
+    p = float(p) if p is not None and 0 < float(p) < 1 else 0.9
+
+    def twice(f, ins, outs):
+        res = []
+        for fillv in (-77, 111):
+            bufs = [np.full(shape, fillv, dtype=dt) for shape, dt in outs]
+            f(*ins, *bufs)
+            res.append([b.copy() for b in bufs])
+        return [not np.array_equal(a, b, equal_nan=True) for a, b in zip(*res)], res[0]
+    try:
+        if kernel == "ws2d":
+            from hdc.algo.ops.ws2d import ws2d
+            ws2d(np.arange(n, dtype="float64"), lam, np.ones(n))
+            return {"violates": False}
+        if kernel in ("ws2dgu", "ws2dpgu", "ws2doptv", "ws2doptvp", "ws2doptvplc", "ws2dwcv", "ws2dwcvp"):
+            y = _series(data, nodata)
+            m = len(y)
+            g = np.array([0.0, 1.0])
+            f = getattr(ops, kernel)
+            if kernel == "ws2dgu":
+                ins, outs = [y, lam, nodata], [((m,), "int16")]
+            elif kernel == "ws2dpgu":
+                ins, outs = [y, lam, nodata, p], [((m,), "int16")]
+            elif kernel == "ws2doptv":
+                ins, outs = [y, nodata, g], [((m,), "int16"), ((1,), "float64")]
+            elif kernel == "ws2doptvp":
+                ins, outs = [y, nodata, p, g], [((m,), "int16"), ((1,), "float64")]
+            elif kernel == "ws2doptvplc":
+                ins, outs = [y.astype("int16"), nodata, p, 0.7], [((m,), "int16"), ((1,), "float64")]
+            elif kernel == "ws2dwcv":
+                ins, outs = [y, nodata, g, bool(robust)], [((m,), "int16"), ((1,), "float64")]
+            else:
+                ins, outs = [y, nodata, p, g, bool(robust)], [((m,), "int16"), ((1,), "float64")]
+            diff, _ = twice(lambda *a: f(*a[:len(ins)], *[b if b.shape != (1,) else b.reshape(()) for b in a[len(ins):]]) if False else f(*a), ins,
+                            [(s if s != (1,) else (), d) for s, d in outs])
+            return {"violates": any(diff), "why": "output depends on the previous content of the output buffer" if any(diff) else ""}
+        if kernel == "rolling_sum":
+            diff, _ = twice(stats.rolling_sum, [np.array(x, dtype="int16"), window, nodata], [((len(x),), "float32")])
+            return {"violates": any(diff)}
+        if kernel == "mean_grp":
+            diff, _ = twice(stats.mean_grp, [np.array(x, dtype="int16"), np.array(groups, dtype="int16"), max(groups) + 1, nodata], [((len(x),), "float32")])
+            return {"violates": any(diff)}
+        if kernel == "gammastd_grp":
+            ng = max(groups) + 1
+            cal = np.array([[0, groups.count(g)] for g in range(ng)], dtype="int16")
+            diff, _ = twice(stats.gammastd_grp, [np.array(x, dtype="int16"), np.array(groups, dtype="int16"), ng, nodata, cal], [((len(x),), "int16")])
+            return {"violates": any(diff), "why": "output element never written" if any(diff) else ""}
+        if kernel == "do_mean":
+            from hdc.algo.ops.zonal import do_mean
+            do_mean(np.array([[[pix]]], dtype="int16"), np.array([[zone]], dtype="uint8" if 0 <= zone <= 255 else "int16"), 1, nodata, znd)
+            return {"violates": False}
+        if kernel == "lroo":
+            ops.lroo(np.array(x, dtype="uint8"))
+            return {"violates": False}
+        if kernel == "autocorr":
+            ops.autocorr(np.array(x, dtype="int16").reshape(1, 1, -1), nodata)
+            return {"violates": False}
+        if kernel == "mk":
+            stats._mann_kendall_trend_gu_nd(np.array(x, dtype="int16"), nodata)
+            return {"violates": False}
+        if kernel == "tinterpolate":
+            runs = 1 + sum(1 for i in range(1, len(labels)) if labels[i] != labels[i - 1])
+            diff, _ = twice(ops.tinterpolate, [np.array(x, dtype="int16"), np.array(template, dtype="float64"), np.array(labels, dtype="int32"),
+                                               np.zeros(runs, dtype="uint8")], [((runs,), "int16")])
+            return {"violates": any(diff)}
+    except IndexError as e:
+        return {"violates": True, "why": f"IndexError under NUMBA_BOUNDSCHECK=1: {e}"[:200]}
+    return {"violates": False, "why": "no replay for this kernel"}
